@@ -69,7 +69,7 @@ func (o *simpleAccessController) GetAuthorizedByRole(role string) ([]string, err
 func (o *simpleAccessController) CanAppend(e logac.LogEntry, _ identityprovider.Interface, _ accesscontroller.CanAppendAdditionalContext) error {
 	for _, id := range o.allowedKeys["write"] {
 		if e.GetIdentity().ID == id || id == "*" {
-			return nil
+			return accesscontroller.VerifyEntryIdentity(e)
 		}
 	}
 
